@@ -34,6 +34,11 @@ CHECKS = {
   text="Generated-input search over projects combining method/controller/default security (absent, single, multiple, repeated scheme, with/without scopes), drawn scheme catalogues, the enforce flag and undeclared schemes. The model predicts each operation's effective alternatives; both documents must list exactly those (schemes, scopes, order), declare every scheme as configured, fail when a visible route names an undeclared scheme, and enforce=true must accept iff no route is open. The router lab additionally compares what each generated router actually consults with the document. Sampling.",
   note="Trusts: rapid, the effective-security rule transcribed from the statement (method, else controller, else default), JSON comparison after normalisation. Hidden routes are not required to make the spec fail on an undeclared scheme (nothing in the document names it).",
   ref="6/C04"),
+ "C13": dict(
+  technique="differential property testing: generated projects x repeated fresh CLI processes x generated enumeration orders (verif-tagged build with VERIF_ORDER) x engines; byte comparison of artefacts",
+  text="Generated-input search over projects and schedules: each generated project is built by the real CLI binary in several fresh processes (natural map-order randomness) and by the hook-enabled build under generated enumeration orders (reverse and drawn seeds for source files, graph nodes by kind, loaded packages, import sets); exit status, spec bytes and routes bytes must be identical, the spec must not depend on the routing engine, and with the date comment enabled only the date line may differ between runs. Sampling of projects and orders; only the four instrumented enumeration points are controlled.",
+  note="Trusts: rapid; the verif-tagged build differs from the production build only by verifhook.Permute at four call sites (MANIFEST.hooks.source_commits); other map iterations are reached by natural runs only.",
+  ref="6/C13", engine="rapid"),
 }
 
 NOT_APPLICABLE = []
